@@ -94,7 +94,30 @@ type run struct {
 	sent  [][]byte
 	fired *time.Timer // the instance whose expiry was already delivered
 	subst []byte      // what `o` stood for in the request being processed
+	req   []byte      // option bytes of the Configure-Request being processed (nil: none)
+	cbs   []string    // invocations of the onStateChange callback during the op
+	pool  *fakePool
+	// what the explorer knows about config.PeerIP: the last SetPeerIP / pool call
+	peerNote string
 }
+
+// fakePool is a scripted pppoe.IPPoolAllocator: the answer to Allocate is a parameter of the run (op `pool <hex|->`),
+// every call is part of the observation.
+type fakePool struct {
+	next  net.IP
+	calls []string
+}
+
+func (p *fakePool) Allocate(string) net.IP {
+	if p.next == nil {
+		p.calls = append(p.calls, "A-")
+		return nil
+	}
+	p.calls = append(p.calls, "A"+hex.EncodeToString(p.next.To4()))
+	return append(net.IP(nil), p.next...)
+}
+
+func (p *fakePool) Release(string) { p.calls = append(p.calls, "R") }
 
 func (r *run) Close() {
 	if r.m != nil {
@@ -161,6 +184,7 @@ func (r *run) construct(toks []string) string {
 		if err != nil {
 			return "error"
 		}
+		m.SetOnStateChange(func(o, n pppoe.LCPState) { r.cbs = append(r.cbs, o.String()+">"+n.String()) })
 		r.m = lcpM{m}
 	case "ipcp":
 		c := pppoe.DefaultIPCPConfig()
@@ -170,13 +194,20 @@ func (r *run) construct(toks []string) string {
 		c.PeerIP = ipOf(toks, "peer")
 		c.PrimaryDNS = ipOf(toks, "dns1")
 		c.SecondaryDNS = ipOf(toks, "dns2")
-		r.m = ipcpM{pppoe.NewIPCPStateMachine(c, "sess-1", send, lg)}
+		if v, _ := kv(toks, "pool"); v == "1" {
+			r.pool = &fakePool{}
+			c.IPPool = r.pool
+		}
+		im := pppoe.NewIPCPStateMachine(c, "sess-1", send, lg)
+		im.SetOnStateChange(func(o, n pppoe.IPCPState) { r.cbs = append(r.cbs, o.String()+">"+n.String()) })
+		r.m = ipcpM{im}
 	case "ipv6cp":
 		c := pppoe.IPV6CPConfig{LocalInterfaceID: 0x0200005eed1e5501, MaxRetransmit: mc, RestartTimer: time.Hour}
 		m, err := pppoe.NewIPV6CPStateMachine(c, send, lg)
 		if err != nil {
 			return "error"
 		}
+		m.SetOnStateChange(func(o, n pppoe.IPV6CPState) { r.cbs = append(r.cbs, o.String()+">"+n.String()) })
 		r.m = ipv6cpM{m}
 	default:
 		return "badop"
@@ -262,6 +293,11 @@ func (r *run) Do(op string) string {
 	}
 	r.sent = nil
 	r.subst = nil
+	r.req = nil
+	r.cbs = nil
+	if r.pool != nil {
+		r.pool.calls = nil
+	}
 	var err error
 	recv := func(code uint8, idTok string, data []byte) bool {
 		id, ok := r.id(idTok)
@@ -304,7 +340,64 @@ func (r *run) Do(op string) string {
 			l.SendProtocolReject(0x8035, []byte{1, 2})
 		}
 	case "rcr":
-		ok = withOpts(pppoe.LCPCodeConfigRequest)
+		if len(toks) != 3 {
+			return "badop"
+		}
+		spec, trail := strings.CutSuffix(toks[2], "+trail")
+		data, good := r.buildOpts(spec)
+		if !good {
+			return "badop"
+		}
+		if trail {
+			data = append(data, 0x00) // one stray byte after the last option
+		}
+		if data == nil {
+			data = []byte{}
+		}
+		r.req = data
+		ok = recv(pppoe.LCPCodeConfigRequest, toks[1], data)
+	case "setpeer":
+		im, isI := r.m.(ipcpM)
+		if len(toks) != 2 || !isI {
+			return "badop"
+		}
+		r.peerNote = "S" + toks[1]
+		if toks[1] == "-" {
+			im.SetPeerIP(nil)
+		} else {
+			b, e := hex.DecodeString(toks[1])
+			if e != nil || len(b) != 4 {
+				return "badop"
+			}
+			im.SetPeerIP(net.IP(b))
+		}
+	case "pool":
+		if len(toks) != 2 || r.pool == nil {
+			return "badop"
+		}
+		if toks[1] == "-" {
+			r.pool.next = nil
+		} else {
+			b, e := hex.DecodeString(toks[1])
+			if e != nil || len(b) != 4 {
+				return "badop"
+			}
+			r.pool.next = net.IP(b)
+		}
+	case "isopened":
+		type opened interface{ IsOpened() bool }
+		var o opened
+		switch v := r.m.(type) {
+		case lcpM:
+			o = v.LCPStateMachine
+		case ipcpM:
+			o = v.IPCPStateMachine
+		case ipv6cpM:
+			o = v.IPV6CPStateMachine
+		}
+		return fmt.Sprintf("%v %s", o.IsOpened(), r.m.State())
+	case "echoshort":
+		ok = len(toks) == 2 && recv(pppoe.LCPCodeEchoRequest, toks[1], []byte{0xaa, 0xbb})
 	case "rcn":
 		ok = withOpts(pppoe.LCPCodeConfigNak)
 	case "rcj":
@@ -397,7 +490,22 @@ func (r *run) observe(err error) string {
 	if len(ps) > 0 {
 		pk = strings.Join(ps, ";")
 	}
-	return fmt.Sprintf("%s t=%d e=%d %s", r.m.State(), t, e, pk)
+	// does every Configure-Ack repeat the BYTES of the request's options?
+	b := 1
+	for _, p := range r.sent {
+		if len(p) >= 4 && p[0] == pppoe.LCPCodeConfigAck && (r.req == nil || !bytes.Equal(p[4:], r.req)) {
+			b = 0
+		}
+	}
+	pl, cb := "-", "-"
+	if r.pool != nil && len(r.pool.calls) > 0 {
+		pl = strings.Join(r.pool.calls, ",")
+		r.peerNote = r.pool.calls[len(r.pool.calls)-1]
+	}
+	if len(r.cbs) > 0 {
+		cb = strings.Join(r.cbs, ",")
+	}
+	return fmt.Sprintf("%s t=%d e=%d b=%d p=%s cb=%s %s", r.m.State(), t, e, b, pl, cb, pk)
 }
 
 func (r *run) showPkt(b []byte) string {
@@ -466,6 +574,7 @@ type cfgT struct {
 	dns1set  bool
 	dns2set  bool
 	lcpExtra bool
+	pool     bool
 }
 
 func configs(r *rand.Rand) cfgT {
@@ -499,6 +608,10 @@ func configs(r *rand.Rand) cfgT {
 			local = "-"
 		}
 		c.line = fmt.Sprintf("new %d local=%s peer=%s dns1=%s dns2=%s", mc, local, peer, d1, d2)
+		if r.Intn(2) == 0 {
+			c.pool = true
+			c.line += " pool=1"
+		}
 		return c
 	default:
 		if r.Intn(8) == 0 {
@@ -625,10 +738,23 @@ func alphabet(c cfgT) []func(r *rand.Rand) string {
 			return fmt.Sprintf("other %s %d", pick(r, []string{"10", "11", "12", "0", "255"}), id(r))
 		},
 	}
+	evs = append(evs,
+		func(*rand.Rand) string { return "isopened" },
+		func(r *rand.Rand) string { return fmt.Sprintf("echoshort %d", id(r)) },
+		func(r *rand.Rand) string {
+			return fmt.Sprintf("rcr %d %s+trail", id(r), join(someOf(r, ack, 0, 2)))
+		})
 	if c.lcpExtra {
 		evs = append(evs,
 			func(*rand.Rand) string { return "sendecho" },
 			func(*rand.Rand) string { return "sendprotorej" })
+	}
+	if proto == "ipcp" {
+		addrs := []string{"0a000064", "0a000065", "c0a80001", "-"}
+		evs = append(evs, func(r *rand.Rand) string { return "setpeer " + pick(r, addrs) })
+		if c.pool {
+			evs = append(evs, func(r *rand.Rand) string { return "pool " + pick(r, addrs) })
+		}
 	}
 	return evs
 }
@@ -650,7 +776,11 @@ func fingerprint(seq []string) string {
 			f[2] = "2+" // identifier - lastIdentifier grows without bound; the explorer only needs 0, 1, many
 		}
 	}
-	return fmt.Sprintf("%s|t=%v", strings.Join(f, "/"), rn.armed())
+	extra := ""
+	if rn.pool != nil {
+		extra = "|pool=" + rn.pool.next.String() + "|" + rn.peerNote
+	}
+	return fmt.Sprintf("%s|t=%v%s|%s", strings.Join(f, "/"), rn.armed(), extra, rn.peerNote)
 }
 
 func (comp) Gen(r *rand.Rand, tier string, emit func(seq []string)) {
@@ -725,7 +855,9 @@ func fixedConfigs() []cfgT {
 			cfgT{line: "new 1 local=0a000001 peer=0a000064 dns1=08080808 dns2=08080404", peer: "0a000064", dns1set: true, dns2set: true},
 			cfgT{line: "new 2 local=0a000001 peer=- dns1=- dns2=-"},
 			cfgT{line: "new 3 local=- peer=- dns1=08080808 dns2=-", dns1set: true},
-			cfgT{line: "new 0 local=0a000001 peer=0a000064 dns1=- dns2=08080404", peer: "0a000064", dns2set: true})
+			cfgT{line: "new 0 local=0a000001 peer=0a000064 dns1=- dns2=08080404", peer: "0a000064", dns2set: true},
+			cfgT{line: "new 2 local=0a000001 peer=- dns1=- dns2=- pool=1", pool: true},
+			cfgT{line: "new 1 local=0a000001 peer=0a000064 dns1=- dns2=- pool=1", peer: "0a000064", pool: true})
 	default:
 		for _, l := range []string{"new 1", "new 2", "new 3", "new 0"} {
 			out = append(out, cfgT{line: l})
